@@ -122,7 +122,8 @@ def run(pid, tier):
             o = observe.lex(text)
             R.case(("known-long", key, len(text)))
             if o["exc"] is None:
-                continue     # finding no longer reproduces: nothing to report
+                R.validated()
+                continue     # finding no longer reproduces (repaired): nothing to report
             mt = kk.get(key, {}).get("match", {})
             if key in kk and o["exc"] == mt.get("exc") and o["excframe"] == mt.get("frame"):
                 R.known(key)
@@ -178,6 +179,8 @@ def run(pid, tier):
     if pid == "C05":
         import c05pipe
         c05pipe.run_into(R, tier)
+        import c05tok
+        c05tok.run_into(R, tier)
     R.assumptions += ["TLC's exhaustiveness is for the stated alphabets and lengths (DESIGN section 7)",
                       "the observation wrapper reads Lexer._Lexer__pos (name-mangled private attribute) for raw end offsets"]
     return R.finish()
